@@ -3,7 +3,7 @@ from hypothesis import strategies as st
 
 from .. import gen, pkg
 from ..plain import Instance, parse_newick
-from ..runner import Result, Violation
+from ..runner import Result, Violation, case_hash
 from ..solver_common import (
     MODE, case_of_output, check_refinement, common_labels, prescribed_root_of, validate_output,
 )
@@ -66,7 +66,7 @@ def _case(draw):
     else:
         op, sp = draw(st.sampled_from([(1, 0), (0, 1), (2, 0), (1, 1)]))
         case = draw(gen.rec_case(max_obj=6, max_sp=5, min_obj=3, min_sp=1, costs="free", labelled=True, max_fam=3,
-                                 prescribed_root=False, obj_poly=op, sp_poly=sp,
+                                 prescribed_root=(group == "poly_ordered"), prescribed_odds=(1, 2), obj_poly=op, sp_poly=sp,
                                  allow_inconsistent=(group == "poly_ordered")))
     if gen.chance(draw, 1, 4) and "leaf_syntenies" in case:
         case["costs"] = dict(case["costs"], SEGMENTAL_LOSS=0)
@@ -90,7 +90,7 @@ def check(case):
     labelled = group != "plain"
     if labelled and case.get("_syn_type") == "str":
         # one-letter family names (g0 -> a, g1 -> b, ...) so that a synteny can be a plain string
-        case = dict(case, leaf_syntenies={k: ["abcdefghij"[int(f[1:])] for f in v] for k, v in case["leaf_syntenies"].items()})
+        case = dict(case, leaf_syntenies={k: [("abcdefghij"[int(f[1:])] if f[1:].isdigit() else "x") for f in v] for k, v in case["leaf_syntenies"].items()})
     unnamed = bool(case.get("_unnamed")) and labelled and all(k in case["leaf_object_species"] for k in case["leaf_syntenies"])
     if unnamed:
         case = dict(pkg.strip_ancestor_names(case))
@@ -165,7 +165,7 @@ def check(case):
                         raise Violation(f"{algo}.{policy}.V-TREES.leaf-syntenies-changed", observed=ocase.get("leaf_syntenies"),
                                         expected=case["leaf_syntenies"])
                     inst = Instance(ocase)
-                    proot = None
+                    proot = prescribed_root_of(inst) if mode == "ordered" else None
                 else:
                     inst = inst0
                     proot = prescribed_root_of(inst) if mode == "ordered" else None
@@ -173,6 +173,27 @@ def check(case):
                 _pat, counts = inst.rec_profile(m)
                 if counts["D"] or counts["T"] or counts["L"]:
                     eventful = True
+    if polytomous and not unnamed and syn_type == "list" and int(case_hash(case), 16) % 4 == 0:
+        # the lines written by `superrec2 reconcile --solutions all`: each is a solution on the binary refinement it names
+        import json
+
+        from .. import stubs
+        from superrec2.model.reconciliation import SuperReconciliationOutput
+
+        algo = GROUPS[group][0]
+        status, lines, _printed, err, _raw = stubs.cli_reconcile({k: v for k, v in case.items() if not k.startswith("_")}, algo, "all")
+        if isinstance(status, str):
+            raise Violation(f"cli.{algo}.exception", observed=err[-300:], expected="no exception")
+        for line in lines[:60]:
+            data = json.loads(line)
+            out = pkg.guarded(SuperReconciliationOutput.from_dict, data)
+            ocase, ot, stt = case_of_output(out, case["costs"])
+            # (the input of a parsed-back output is a plain input: the leaf syntenies - and a prescribed root - are the case's)
+            ocase["leaf_syntenies"] = {k: list(v) for k, v in case["leaf_syntenies"].items()}
+            linst = Instance(ocase)
+            validate_output(linst, out, algo, "ALL", prescribed_root_of(linst) if MODE[algo][0] == "ordered" else None)
+            n_solutions += 1
+        labels.append("cli_lines")
     labels.append("solutions=0" if n_solutions == 0 else "solutions>0")
     nontrivial = n_solutions > 0 and eventful and nleaves >= 3
     return Result(nontrivial, labels, evals=max(1, n_solutions))
